@@ -35,6 +35,9 @@ type c03MatchCase struct {
 	After    []absEntry `json:"after"`
 	Observed []string   `json:"observed"`
 	Edits    []string   `json:"edits"`
+	// generator-side truth for the content-equality oracle (nil when the text is not the rendering of the file)
+	fb, fa     *gFile
+	offB, offA int
 }
 
 const c03BadComment = "# pint file/disable\n" // invalid control comment: an Entry with PathError, parsing goes on
@@ -126,20 +129,25 @@ func c03GenMatch(g *gen, id int) c03MatchCase {
 	}
 	c.TextB, _ = fb.render()
 	c.TextA, _ = fa.render()
+	c.fb, c.fa = &fb, &fa
 	if r.Intn(10) == 0 {
 		c.TextA = c03BadComment + c.TextA
+		c.offA = 1
 		c.Edits = append(c.Edits, "after-path-error")
 	}
 	if r.Intn(15) == 0 {
 		c.TextB = c03BadComment + c.TextB
+		c.offB = 1
 		c.Edits = append(c.Edits, "before-path-error")
 	}
 	if r.Intn(25) == 0 {
 		c.TextA = ""
+		c.fa = nil
 		c.Edits = append(c.Edits, "after-empty")
 	}
 	if r.Intn(25) == 0 {
 		c.TextB = ""
+		c.fb = nil
 		c.Edits = append(c.Edits, "before-empty")
 	}
 	return c
@@ -161,6 +169,7 @@ func c03RunMatch(c *c03MatchCase, rep *runReport) string {
 		rep.Notes = append(rep.Notes, fmt.Sprintf("match case %d: Rule.IsIdentical is not an equivalence on the rules of the case (%d inconsistencies)", c.ID, t.broken))
 		rep.hist("L1:is-identical-not-equivalence")
 	}
+	c03ContentOracle(c, eb, ea, rep)
 	ml := discovery.VerifMatchEntries(eb, ea)
 	uid := func(has bool, e discovery.Entry) string {
 		if !has {
@@ -209,6 +218,51 @@ func c03RunMatch(c *c03MatchCase, rep *runReport) string {
 	key := fmt.Sprintf("L1|%v|%v|%v", c.Before, c.After, obs)
 	rep.count(key, nBoth > 0 && (nOnlyA > 0 || nOnlyB > 0 || nBoth > nIdent))
 	return fmt.Sprintf("MatchCase %s %s %s %s", coqN(c.ID), absEntriesCoq(c.Before), absEntriesCoq(c.After), coqList(obs))
+}
+
+// c03ContentOracle: what "content" means for the property is the generator's key (kind, name, expr, for, labels, annotations,
+// control comments; order of map entries and text layout irrelevant).  For every (HEAD rule, base rule) pair of valid rules of a
+// case the real Rule.IsIdentical -- the test every Noop classification rests on -- must agree with key equality.
+func c03ContentOracle(c *c03MatchCase, eb, ea []discovery.Entry, rep *runReport) {
+	if c.fb == nil || c.fa == nil {
+		return
+	}
+	rulesAt := func(f *gFile, off int) map[int]gRule {
+		m := map[int]gRule{}
+		_, locs := f.render()
+		for i, l := range locs {
+			m[l.First+off] = f.Rules[i]
+		}
+		return m
+	}
+	mb, ma := rulesAt(c.fb, c.offB), rulesAt(c.fa, c.offA)
+	for _, a := range ea {
+		ra, ok := ma[a.Rule.Lines.First]
+		if !ok || ra.Broken || a.PathError != nil || a.Rule.Error.Err != nil || a.Rule.Name() != ra.Name {
+			continue
+		}
+		for _, b := range eb {
+			rb, ok := mb[b.Rule.Lines.First]
+			if !ok || rb.Broken || b.PathError != nil || b.Rule.Error.Err != nil || b.Rule.Name() != rb.Name {
+				continue
+			}
+			got, want := a.Rule.IsIdentical(b.Rule), ra.key() == rb.key()
+			if want {
+				rep.hist("L1:content-pairs-equal")
+			} else {
+				rep.hist("L1:content-pairs-different")
+			}
+			if got != want {
+				what := "CHANGED RULE WOULD BE SKIPPED: Rule.IsIdentical says identical for rules with different content"
+				if want {
+					what = "UNTOUCHED RULE WOULD BE REPORTED AS CHANGED: Rule.IsIdentical says different for rules with the same content"
+				}
+				rep.fail(fmt.Sprintf("content-%d", c.ID), fmt.Sprintf("%s: HEAD rule at line %d (%s) vs base rule at line %d (%s)", what,
+					a.Rule.Lines.First, ra.key(), b.Rule.Lines.First, rb.key()), c)
+				return
+			}
+		}
+	}
 }
 
 // ---------------------------------------------------------------------------------------------
